@@ -419,6 +419,68 @@ fn emitted_names_family(rep: &mut Report) {
     rep.cov_add("distinct_nontrivial", nontrivial.len() as u64);
 }
 
+// ------------------------------------------------------------------------------------------------
+// the rule is read wherever it stands in the container's serde attributes
+// ------------------------------------------------------------------------------------------------
+
+/// Dictionary identifiers × 8 rules × {field, variant} × ways of writing the container attribute: the computed name
+/// must be the one computed for the plain `#[serde(rename_all = "..")]` (which the sweeps compare with serde_derive's).
+fn attribute_shapes_family(rep: &mut Report) {
+    use crate::cli::par_map;
+    const SHAPES: [(&str, &str); 5] = [
+        ("after-a-list-form-argument", "#[serde(bound(deserialize = \"u32: Clone\"), rename_all = \"{R}\")]"),
+        ("after-bare-words", "#[serde(default, deny_unknown_fields, rename_all = \"{R}\")]"),
+        ("after-crate-path", "#[serde(crate = \"serde\", rename_all = \"{R}\")]"),
+        ("in-a-second-attribute-after-a-list-form-one", "#[serde(bound(serialize = \"u32: Clone\"))]\n#[serde(rename_all = \"{R}\")]"),
+        ("before-a-list-form-argument-with-trailing-comma", "#[serde(rename_all = \"{R}\", bound(deserialize = \"u32: Clone\"),)]"),
+    ];
+    let read = |file: &str| -> Vec<String> {
+        std::fs::read_to_string(format!("{}/mc/data/{file}", report::VERIF)).map(|t| t.lines().filter(|l| !l.is_empty() && is_ident(l)).map(String::from).collect()).unwrap_or_default()
+    };
+    let mut jobs: Vec<(String, bool, &'static str)> = Vec::new();
+    for (file, variant) in [("idents_fields.txt", false), ("idents_variants.txt", true)] {
+        for id in read(file) {
+            for rule in &RULES[..8] {
+                jobs.push((id.clone(), variant, rule));
+            }
+        }
+    }
+    let compute = |attr: &str, sp: &str, variant: bool| -> Option<String> {
+        let src = if variant { format!("#[typeshare]\n{attr}\npub enum Subject {{ {sp}, Zz9 }}\n") } else { format!("#[typeshare]\n{attr}\npub struct Subject {{ pub {sp}: u32 }}\n") };
+        match pipeline::parse_only(&[SrcFile::single(src)], &Cfg::plain()) {
+            Ok(m) => m.values().next().and_then(|pd| {
+                if variant {
+                    pd.enums.first().and_then(|e| e.shared().variants.first()).map(|v| v.shared().id.renamed.clone())
+                } else {
+                    pd.structs.first().and_then(|s| s.fields.first()).map(|f| f.id.renamed.clone())
+                }
+            }),
+            Err(_) => None,
+        }
+    };
+    let results = par_map(&jobs, report::threads(), |(id, variant, rule)| {
+        let sp = spell(id)?;
+        let plain = compute(&format!("#[serde(rename_all = \"{rule}\")]"), &sp, *variant);
+        let shaped: Vec<Option<String>> = SHAPES.iter().map(|(_, a)| compute(&a.replace("{R}", rule), &sp, *variant)).collect();
+        Some((plain, shaped))
+    });
+    let mut judged = 0u64;
+    for ((id, variant, rule), r) in jobs.iter().zip(results) {
+        let Some((plain, shaped)) = r else { continue };
+        for ((name, attr), got) in SHAPES.iter().zip(shaped) {
+            judged += 1;
+            if got != plain {
+                rep.vios.add(Violation {
+                    sig: format!("C16|{rule}|{}|rule-not-read|attribute={name}|{}", if *variant { "variant" } else { "field" }, if got.as_deref() == Some(id.as_str()) { "name-left-unchanged" } else { "other-name" }),
+                    detail: json!({"ident": id, "rule": rule, "position": if *variant { "variant" } else { "field" }, "container_attribute": attr.replace("{R}", rule), "computed": got, "computed_for_plain_attribute": plain}),
+                });
+            }
+        }
+    }
+    rep.cov("attribute_shapes", json!({"shapes": SHAPES.iter().map(|s| s.0).collect::<Vec<_>>(), "identifiers": jobs.len() / 8, "rules": 8, "compared": judged, "oracle": "same computed name as under the plain #[serde(rename_all = ..)]"}));
+    rep.cov_add("evaluations", judged);
+}
+
 pub fn run(args: &[String]) -> i32 {
     let tier = report::tier_from_env(args);
     let mut rep = Report::new("C16", &tier);
@@ -463,6 +525,7 @@ pub fn run(args: &[String]) -> i32 {
     rep.cov_add("evaluations", st.0);
     rep.cov_add("distinct_nontrivial", st.2.len() as u64);
     emitted_names_family(&mut rep);
+    attribute_shapes_family(&mut rep);
     if thorough {
         bind_oracle_to_serde_derive(&mut rep);
     }
